@@ -16,12 +16,17 @@ def run(ctx):
     ctx.not_decided += ["behavioural equivalence of the reloaded function on all argument tuples", "validate_portable_value accepting late-bound names (outside the statement's premise)"]
     P.L1_tokens(ctx, "C05.L1", core, G)
     P.L3_levels(ctx, "C05.L3", core, G)
+    from rules import c10 as c10_
+    ctx.rule("C05.L12", "the parser that reloads an emitted function binds as the documented table says (levels, members, associativity): the emitter parenthesises against that table, so a parser that merges or reorders levels reads unparenthesised output as another tree", floor=30)
+    c10_.CRATE[0] = core
+    c10_.binding_levels_rule(ctx, "C05.L12", core, c10_.precedence_rows(core))
     P.L4_strings(ctx, "C05.L4", core, G)
     P.L5_nonfinite(ctx, "C05.L5", core)
     P.L6_reserved(ctx, "C05.L6", core, G)
     P.L7_builtins(ctx, "C05.L7", core)
     from rules import symprint
     symprint.L2_guards(ctx, "C05.L2", core, G, scope_fns=("ast_to_source",))
+    symprint.param_markers(ctx, "C05.L13", core, scope_fns=("ast_to_source",))
     symprint.shape_rules(ctx, "C05.L9", core, G, scope_fns=("ast_to_source",))
     symprint.lambda_head(ctx, "C05.L11", core, G, scope_fns=("ast_to_source",))
     symprint.scope_threading(ctx, "C05.R10", core)
